@@ -45,6 +45,18 @@ int main() {
   std::string line;
   while (std::getline(std::cin, line)) {
     std::istringstream ls(line); std::string cmd; ls >> cmd;
+    if (cmd == "dirty") {
+      // construct a Processor in storage with non-zero contents (what a heap or stack may hold) and report
+      // a memory word outside any image and the value run() returns when the cycle limit ends the run at once
+      unsigned w; ls >> w;
+      std::istringstream in(""); std::ostringstream out;
+      auto *p = new Processor(in, out, 1);     // run with MALLOC_PERTURB_ set: malloc hands out non-zero bytes
+      unsigned mw = p->memory[w];
+      p->cycles = 2;
+      int rv = p->run();
+      std::cout << mw << " " << rv << "\n";
+      delete p;
+    } else
     if (cmd == "step") {
       unsigned pc, a, b, o; int trunc; ls >> pc >> a >> b >> o >> trunc;
       std::string inbytes; std::vector<std::pair<unsigned, unsigned>> mem; std::vector<unsigned> watch;
